@@ -1130,6 +1130,9 @@ pub fn div_rem_vartime_in_place(x: &mut [Limb], y: &mut [Limb])
 // Only the struct and the two free functions of src/uint/boxed/div_limb.rs are mirrored; `BoxedUint::shl_limb`
 // (src/uint/boxed/shl.rs: `vec!`, `Vec -> Box<[Limb]>`) is an assumed callee with the contract of the fixed `Uint::shl_limb`.
 //@@ item src/uint/boxed.rs | struct BoxedUint
+//@+
+#[verifier::external_derive(Clone)]
+//@-
 #[derive(Clone)]
 pub struct BoxedUint {
     pub limbs: Box<[Limb]>,
